@@ -927,8 +927,10 @@ func runFresh(t interface{ Fatalf(string, ...any) }, c *FreshCase) {
 }
 
 func TestQuick(t *testing.T) {
-	fix.Pinned(t, prop, replay)
+	// first: the first executions of the process arrive together (whatever
+	// the library sets up lazily is set up under concurrency)
 	hotWrappers(t, 8, 300)
+	fix.Pinned(t, prop, replay)
 	runFresh(t, &FreshCase{Attempts: 700, Readers: 4, Queriers: 4})
 	bigFirstUse(t, 70001, 6, fix.OpenCfg{CacheCap: -1})
 	runNewCache(t, &NewCacheCase{Attempts: 20000, Goroutines: 4})
@@ -940,10 +942,10 @@ func TestQuick(t *testing.T) {
 }
 
 func TestThorough(t *testing.T) {
+	hotWrappers(t, 12, 1000) // first: the first executions of the process arrive together
 	if shard, _ := evid.Shard(); shard == 0 {
 		fix.Pinned(t, prop, replay)
 	}
-	hotWrappers(t, 12, 1000)
 	runFresh(t, &FreshCase{Attempts: 1500, Readers: 4, Queriers: 4})
 	if shard, _ := evid.Shard(); shard < 3 {
 		bigFirstUse(t, 70001, 4+4*shard, fix.OpenCfg{Preload: shard == 1, CacheCap: int64(shard-1) * (1 << 20)})
